@@ -29,6 +29,9 @@ claimed = {
  "C15": ("All schedules (modulo sound partial-order reduction) of one data writer sending a multi-frame message, control-frame senders and a closer on one connection are explored as forked decisions; on each, the bytes handed to the transport parse as whole well-formed frames with control frames only between frames, the data message is intact and in order, nothing follows a Close frame and later writes fail with the close-sent error; no data race by vector-clock happens-before detection. Claimed for 3-4 threads; a concurrent reader and expiring write deadlines are outside.",
          "Bounded number of threads and frames; reductions and their soundness conditions are listed in the evidence assumptions. " + TRUST,
          "bounded symbolic execution with schedule forking (sleep-set reduced) + vector-clock race detection + RFC 6455 reference frame parser"),
+ "C18": ("Claimed for the connection-id clauses: on every schedule of goroutines creating contexts concurrently all ids are pairwise distinct and the id counter is accessed without a data race (vector-clock detection, confirmed natively under -race); an aliased context carries exactly its source's id and a fresh unused one when the source has none; for each kind of context (nil, application object with Cid(), context.Context with/without id) both formatting paths hand [pid] and the passed context's id to the formatter. NOT claimed: emission of exactly one whole, non-interleaved line per call (log.Logger, fmt, time and os.File are not encodable).",
+         "Subset as stated. " + TRUST,
+         "bounded symbolic execution with schedule forking + vector-clock race detection"),
  "C20": std("Rate meters: a window samples iff a full window passed (integer/time logic by bit-vector queries), slower windows only after faster ones, rate bit-exactly equal to the IEEE evaluation of growth*1000/window_ms and proved finite and non-negative for every counter value (stall, backwards, wrap) in the FP theory; average and kbit/s scaling likewise; reading before Start panics."),
  "C07": ("For every byte string up to the stated length given to each claimed decoder, every panic site (index, slice bounds, nil dereference, make size, division, type assertion) is shown infeasible by the solver on every path, and every path terminates within its step budget (a budget overrun is replayed natively under a watchdog and reported as a stall only if the real code hangs); enum helpers are total over their whole underlying type. Claimed for the byte-level decoders only: JWS/JWE/JWK/OCSP parsing needs encoding/json, encoding/asn1, reflection and math/big, which the engine cannot encode, and no complexity (linear-time) claim is made.",
          "Subset and bounds in evidence.coverage.bounds and assumptions. " + TRUST,
